@@ -48,7 +48,7 @@ def main():
     cwd = os.path.join(wt, 'sandbox', 'grist')
     rc0, o0 = run(cmd, cwd, env)
     out['demo_clean_exit'] = rc0
-    rc = subprocess.call(['git', '-C', wt, 'apply', os.path.join(d, 'patch.diff')])
+    rc = subprocess.call(['git', '-C', wt, 'apply', '--3way', os.path.join(d, 'patch.diff')])
     out['patch_applies'] = (rc == 0)
     rc1, o1 = run(cmd, cwd, env)
     out['demo_patched_exit'] = rc1
